@@ -434,7 +434,7 @@ def shrink_hist(hist, pred):
 
 
 def part_subs(res, rng, driver, tier):
-    nh = 60 if tier == "quick" else 900
+    nh = (60 if tier == "quick" else 900) * common.effort(tier)
     ops, impl, cases = [], [], []
     for h in range(nh):
         version = rng.choice(G.VERSIONS)
